@@ -952,7 +952,7 @@ func c09CPCase(r *Run, rng *Rng, alg string) {
 		shapeStr = append(shapeStr, sh.String())
 	}
 	klo, ko, sklo, thr := rng.Pick(0, 0, 1, 2, 5), rng.Pick(1, 1, 2, 3, 7), rng.Pick(0, 0, 1, 3, 10), rng.Pick(0, 0, 1, 2, 4, 8)
-	long := rng.Chance(2)
+	long := rng.Intn(250) == 0
 	if long {
 		ko = 3600 // the shipped default
 	}
@@ -1026,7 +1026,7 @@ func c09CPCase(r *Run, rng *Rng, alg string) {
 	// ---- drain phase: free ports, every mapped group completes (random order), tick until quiet
 	e.room("cu", c09PortCap)
 	e.room("drv", c09PortCap)
-	quiet := 0
+	quiet, longTicks := 0, 0
 	for step := 0; step < 600 && quiet < 2 && !e.dead; step++ {
 		for len(e.outst) > 0 && rng.Chance(70) {
 			if rng.Chance(15) && len(e.outst) > 1 {
@@ -1036,7 +1036,8 @@ func c09CPCase(r *Run, rng *Rng, alg string) {
 			}
 		}
 		p := 0
-		if long && len(e.outst) == 0 && rng.Chance(50) {
+		if long && len(e.outst) == 0 && longTicks < 3 && rng.Chance(50) {
+			longTicks++
 			p = e.doTicks(3600)
 		} else {
 			p = e.doTicks(1)
@@ -1194,6 +1195,11 @@ func c09Constants(r *Run) {
 		return strings.Join(p, ",")
 	}
 	got := fmt.Sprintf("wf=%s s=%d v=%s l=%d", ints(wf), cu.SRegCount(), ints(v), cu.LDSBytes())
+	// what cu.MakeBuilder() really allocates: scalar file bytes, vector file bytes and lane stride
+	// per SIMD, wavefront-pool size and SIMD count
+	sh := timingcu.VerifDefaultShape()
+	got += fmt.Sprintf(" sfile=%d vfile=%s stride=%s pool=%d simd=%d", sh.SRegFileBytes, ints(sh.VRegFileBytes),
+		ints(sh.VRegLaneStride), sh.WfPoolSize, sh.SIMDCount)
 	r.Case("c09 const", got)
 	// the pool must create masks of exactly count/granularity cells for it, and the byte offsets
 	// of the last cell must end at the size of the register files cubuilder allocates
